@@ -207,6 +207,19 @@ def build_shared_features_map(mod: fx.GraphModule,
         return is_layer(n, mod, tuple(pit_layer_map.keys())) and exclude(
             n, mod, exclude_names, exclude_types)
 
+    def _feeds_excluded_layer(n: fx.Node, seen: set) -> bool:
+        # follows the features of n through the ops that propagate or concatenate them
+        for u in n.users:
+            if u in seen:
+                continue
+            seen.add(u)
+            if _is_excluded_layer(u):
+                return True
+            if not (u.meta['features_defining'] or u.meta['untouchable']) and \
+                    _feeds_excluded_layer(u, seen):
+                return True
+        return False
+
     # each weakly connected component of the sharing graph must share the same features masker
     sm_dict = {}
     for c in nx.weakly_connected_components(sharing_graph):
@@ -223,8 +236,7 @@ def build_shared_features_map(mod: fx.GraphModule,
                     any(n.meta.get('output_connected', False) for n in c) or
                     # layers excluded from the search keep their static shapes, so the features
                     # they produce or consume cannot be pruned either
-                    any(_is_excluded_layer(n) or any(_is_excluded_layer(u) for u in n.users)
-                        for n in c)
+                    any(_is_excluded_layer(n) or _feeds_excluded_layer(n, set()) for n in c)
                 ):
                     sm = PITFrozenFeaturesMasker(n.meta['tensor_meta'].shape[1])
                 else:
